@@ -1228,8 +1228,11 @@ class Channel(ClosingContextManager):
         self.event_ready = False
 
     def _wait_for_event(self):
-        self.event.wait()
-        assert self.event.is_set()
+        # Poll: a close which lands between a caller's open-state check and
+        # _event_pending() clearing the event would otherwise be lost.
+        while not self.event.wait(0.1):
+            if self.closed:
+                break
         if self.event_ready:
             return
         e = self.transport.get_exception()
